@@ -7,6 +7,7 @@
 (* Logged events: Reset, Accept(c), Arm(c, cls), Send(c, q), SendPart(c,q),*)
 (* SendRest(c, q), Garbage(c), HalfClose(c), TimerFire(c), Invoke(q, c, ok,*)
 (* ctxdone), Release(q, k), Write(q, c, ok), WriteFail(q), Close(c),       *)
+(* Stall(c), Unstall(c), PartialWrite(q, c, n),                            *)
 (* ListenerClose, ServeReturn(err), CtxDone(q) (a running handler saw its  *)
 (* context end), CtxAlive(q) (it waited the full bound for that and the    *)
 (* context is still alive), Quiet (the harness waited its full bound for a reaction   *)
@@ -55,6 +56,7 @@ Reset ==
     /\ wr' = [q \in Ids |-> 0]
     /\ late' = [c \in Conns |-> FALSE]
     /\ ng' = [c \in Conns |-> 0]
+    /\ stalled' = [c \in Conns |-> FALSE] /\ trunc' = [c \in Conns |-> FALSE] /\ wat' = [c \in Conns |-> FALSE]
     /\ hist' = <<>>
 
 InRange == ("q" \in DOMAIN Ev => Ev.q \in Ids) /\ ("c" \in DOMAIN Ev => Ev.c \in Conns)
@@ -80,7 +82,11 @@ Logged ==
           /\ IF TCP THEN Write(Ev.q)
                     ELSE qst[Ev.q] = "written" /\ obs[Ev.q] = 0 /\ UNCHANGED vars
     \/ IsEvent("WriteFail") /\ WriteFail(Ev.q)
+    \/ IsEvent("PartialWrite") /\ qc[Ev.q] = Ev.c /\ PartialWrite(Ev.q)
+    \/ IsEvent("Stall") /\ Stall(Ev.c)
+    \/ IsEvent("Unstall") /\ Unstall(Ev.c)
     \/ IsEvent("Close") /\ \/ ReaderClose(Ev.c)
+                           \/ TruncClose(Ev.c)
                            \/ \E q \in Ids : qc[q] = Ev.c /\ TCP /\ cst[Ev.c] = "open" /\ Abort(q)
     \/ IsEvent("ServeReturn") /\ Ev.err /\ lst = "returned" /\ UNCHANGED vars    \* observed after the (silent) step
     \/ IsEvent("CtxDone") /\ qst[Ev.q] = "running" /\ CtxDone(qc[Ev.q]) /\ UNCHANGED vars
